@@ -181,7 +181,7 @@ package page
 //@   ensures factoryOK(f)
 //@ end
 //@ func factory.TruncatePages
-//@   prop C06
+//@   prop C05 C06
 //@   requires factoryOK(f)
 //@   modifies f.pages[*], f.size.val, any(*mappedPage).closed.val
 //@   ensures all(id, "int64", id >= index ==> (fhas(f, id) == old(fhas(f, id)) && fpage(f, id) == old(fpage(f, id))))
